@@ -8,15 +8,39 @@ import (
 	"strings"
 
 	"lndlint/internal/an"
+	"lndlint/internal/flow"
 )
 
 // c17RbfOptList is what c17RbfOptionList learned about one option slice variable.
 type c17RbfOptList struct {
-	obj      types.Object
-	explicit []*ast.CallExpr // option constructor calls placed in the list
-	builders []an.Site       // the statements that place them
-	writes   []an.Site       // every write of the list (builders and musig appends)
-	musig    []string        // the sources of the appended musig options
+	obj         types.Object
+	explicit    []*ast.CallExpr // option constructor calls placed in the list
+	explicitAt  []an.Site       // for each of them, the statement that places it
+	builders    []an.Site       // the statements that place them
+	conditional []an.Site       // the builders that place options of a conditional kind on some paths only
+	writes      []an.Site       // every write of the list (builders and musig appends)
+	musig       []string        // the sources of the appended musig options
+}
+
+// placedBy returns the constructor calls the builder b places.
+func (l *c17RbfOptList) placedBy(b an.Site) []*ast.CallExpr {
+	var out []*ast.CallExpr
+	for i, c := range l.explicit {
+		if l.explicitAt[i].Node == b.Node {
+			out = append(out, c)
+		}
+	}
+	return out
+}
+
+// isConditional reports whether b is one of the conditional builders.
+func (l *c17RbfOptList) isConditional(b an.Site) bool {
+	for _, c := range l.conditional {
+		if c.Node == b.Node {
+			return true
+		}
+	}
+	return false
 }
 
 // canonOpts renders the explicit options, sorted.
@@ -41,7 +65,13 @@ func (l *c17RbfOptList) canonOpts(f *an.Func) []string {
 // a spread list of unknown origin, address-of, alias) and any other use is
 // reported: the comparison of the two halves reads the constructor calls and
 // would not see it.
-func c17RbfOptionList(o *an.Obl, f *an.Func, id *ast.Ident, consumers []an.Site, musigSources map[string]int) *c17RbfOptList {
+//
+// Every builder must lie on every path to every consumer, except a builder
+// that places nothing but options of the kinds in condKinds (constructor
+// names without package): such a builder is recorded in l.conditional and the
+// caller decides its condition; it must still precede every consumer it can
+// reach (nothing is written once a consumer has run).
+func c17RbfOptionList(o *an.Obl, f *an.Func, id *ast.Ident, consumers []an.Site, musigSources map[string]int, condKinds map[string]bool) *c17RbfOptList {
 	info := f.Info()
 	l := &c17RbfOptList{obj: c17ObjOfIdent(f, id)}
 	if _, ok := l.obj.(*types.Var); !ok {
@@ -126,6 +156,7 @@ func c17RbfOptionList(o *an.Obl, f *an.Func, id *ast.Ident, consumers []an.Site,
 				continue
 			}
 			l.explicit = append(l.explicit, c)
+			l.explicitAt = append(l.explicitAt, s)
 		}
 		if ok {
 			l.builders = append(l.builders, s)
@@ -147,8 +178,29 @@ func c17RbfOptionList(o *an.Obl, f *an.Func, id *ast.Ident, consumers []an.Site,
 	// flow: the constructor calls are placed on every path to a consumer,
 	// and nothing is written once a consumer has run
 	g := f.Graph()
+	for _, b := range l.builders {
+		onEveryPath := true
+		for _, c := range consumers {
+			if !f.Before([]an.Site{b}, c) {
+				onEveryPath = false
+			}
+		}
+		onlyCondKinds := len(l.placedBy(b)) > 0
+		for _, c := range l.placedBy(b) {
+			if !condKinds[strings.TrimPrefix(an.CalleeID(info, c), lw)] {
+				onlyCondKinds = false
+			}
+		}
+		if !onEveryPath && onlyCondKinds {
+			l.conditional = append(l.conditional, b)
+		}
+	}
 	for _, c := range consumers {
 		for _, b := range l.builders {
+			if l.isConditional(b) {
+				o.Site("%s is placed on some paths to %s only (its condition is checked separately)", b.String(), c.String())
+				continue
+			}
 			o.Site("%s precedes %s", b.String(), c.String())
 			if !f.Before([]an.Site{b}, c) {
 				o.FailAt(f.ID+"#option-list-conditional", b.Where(), "%s can be reached without the options placed at %s", c.String(), b.String())
@@ -197,7 +249,8 @@ func c17LastArgIdent(s an.Site) *ast.Ident {
 }
 
 // c17RbfOptionKinds checks that the explicit options of l are exactly the
-// tabled kinds, each with the tabled argument.
+// tabled kinds, each with the tabled argument (a nil term: the constructor
+// takes no argument).
 func c17RbfOptionKinds(o *an.Obl, f *an.Func, l *c17RbfOptList, where string, want map[string]an.Term, desc map[string]string) {
 	got := map[string]bool{}
 	for _, c := range l.explicit {
@@ -208,6 +261,12 @@ func c17RbfOptionKinds(o *an.Obl, f *an.Func, l *c17RbfOptList, where string, wa
 			continue
 		}
 		got[k] = true
+		if t == nil {
+			if len(c.Args) != 0 {
+				o.FailAt(f.ID+"#option:"+desc[k], f.Where(c.Pos()), "%s: the option %s takes arguments the rule does not know", f.ID, f.Canon(c))
+			}
+			continue
+		}
 		if len(c.Args) != 1 || !t(f, ast.Unparen(c.Args[0])) {
 			o.FailAt(f.ID+"#option:"+desc[k], f.Where(c.Pos()), "%s: the option %s does not carry %s", f.ID, f.Canon(c), desc[k])
 		}
@@ -228,8 +287,8 @@ func c17RbfCloseOptions(r *an.Run) {
 	p := r.Prog
 	cc := "lnwallet/chancloser."
 	r.Obl("rbf-proposal-and-completion-same-options", "MIRROR",
-		"the non-musig close options (sequence, lock time, fee payer) handed to CreateCloseProposal in LocalCloseStart equal those handed to CompleteCooperativeClose in LocalOfferSent and name the local party as payer; RemoteCloseStart hands one option list, naming the remote party as payer and the lock time of the peer's message, to both createLocalCloseeSignature (whose CreateCloseProposal receives exactly that list) and CompleteCooperativeClose; the scripts and the fee of the two halves agree as well; each option list is built only from option constructor calls (one per kind, on every path to its use) plus the musig options returned by ProposalClosingOpts / prepareClosingSignatures (nil or those of CombineClosingOpts), is used for nothing else, and is not written once it was handed to the signing or the completing call",
-		"completing with another payer, sequence or lock time than was signed rebuilds a different transaction: the peer's signature does not verify, or the fee is charged to the wrong party", 6,
+		"the non-musig close options (sequence, lock time, fee payer) handed to CreateCloseProposal in LocalCloseStart equal those handed to CompleteCooperativeClose in LocalOfferSent, name the local party as payer and carry as lock time the very term LocalCloseStart announces in closing_complete.LockTime, which is a field of the environment both states receive and neither writes; RemoteCloseStart hands one option list, naming the remote party as payer and the lock time of the peer's message, to both createLocalCloseeSignature (whose CreateCloseProposal receives exactly that list) and CompleteCooperativeClose; the scripts and the fee of the two halves agree as well; each option list is built only from option constructor calls (one per kind, on every path to its use) plus the musig options returned by ProposalClosingOpts / prepareClosingSignatures (nil or those of CombineClosingOpts), is used for nothing else, and is not written once it was handed to the signing or the completing call; the one option placed on some paths only is the closee's omission of the closer's output: it is placed by one append under exactly one condition beyond those of the list, a local defined once as `!(no-closee-output result of extractSigAndNonceFromClosingComplete) && parseSigFields(..).CloserAndClosee.IsNone()`, both taken from the message the fee is read from; that test lies on every path to the signing and the completing call and, when it holds, the option is placed before either",
+		"completing with another payer, sequence, lock time or set of outputs than was signed (or than the peer was told) rebuilds a different transaction: the peer's signature does not verify, or the fee is charged to the wrong party", 6,
 		func(o *an.Obl) {
 			start := p.Func(cc + "LocalCloseStart.ProcessEvent")
 			sent := p.Func(cc + "LocalOfferSent.ProcessEvent")
@@ -259,18 +318,30 @@ func c17RbfCloseOptions(r *an.Run) {
 					o.FailAt(sent.ID+"#option-lists", comp[0].Where(), "the closer's proposal / completion do not take their options from a list variable")
 					return
 				}
-				la := c17RbfOptionList(o, start, pid, prop, proposalOpts)
-				lb := c17RbfOptionList(o, sent, cid, append(append([]an.Site{}, pcs...), comp...), map[string]int{"prepareClosingSignatures": 2})
+				la := c17RbfOptionList(o, start, pid, prop, proposalOpts, nil)
+				lb := c17RbfOptionList(o, sent, cid, append(append([]an.Site{}, pcs...), comp...), map[string]int{"prepareClosingSignatures": 2}, nil)
 				a, b := la.canonOpts(start), lb.canonOpts(sent)
 				o.Site("closer proposal options %v", a)
 				o.Site("closer completion options %v", b)
 				if strings.Join(a, ";") != strings.Join(b, ";") || len(a) == 0 {
 					o.FailAt(sent.ID+"#options-differ", comp[0].Where(), "the closer signs its proposal with %v but completes it with %v", a, b)
 				}
-				want := map[string]an.Term{"WithCustomSequence": seqTerm, "WithCustomPayer": payerIs("Local")}
-				desc := map[string]string{"WithCustomSequence": "the RBF sequence", "WithCustomPayer": "the local party as fee payer"}
+				// the lock time: the term announced in closing_complete, which
+				// must denote the same value in both states (a field of the
+				// environment both ProcessEvent methods receive, written by
+				// neither)
+				announced := c17RbfAnnouncedLockTime(o, start, sent)
+				closerLock := func(f *an.Func, e ast.Expr) bool {
+					return announced != "" && f.Canon(e) == announced
+				}
+				want := map[string]an.Term{"WithCustomSequence": seqTerm, "WithCustomPayer": payerIs("Local"), "WithCustomLockTime": closerLock}
+				desc := map[string]string{"WithCustomSequence": "the RBF sequence", "WithCustomPayer": "the local party as fee payer", "WithCustomLockTime": "the lock time announced in closing_complete"}
 				c17RbfOptionKinds(o, start, la, prop[0].Where(), want, desc)
 				c17RbfOptionKinds(o, sent, lb, comp[0].Where(), want, desc)
+				if announced != "" {
+					c17NoFieldWrites(o, start, announced)
+					c17NoFieldWrites(o, sent, announced)
+				}
 				// scripts and fee of the two halves: local script, remote script, the offered fee
 				pa, ca := start.ArgCanon(prop[0]), sent.ArgCanon(comp[0])
 				o.Site("closer proposal (fee=%s, local=%s, remote=%s)", pa[0], pa[1], pa[2])
@@ -337,7 +408,8 @@ func c17RbfCloseOptions(r *an.Run) {
 					o.FailAt(rem.ID+"#option-lists", rc[0].Where(), "the closee signs with option list %s but completes with %s", an.Text(hs[0].Node.(*ast.CallExpr).Args[len(hs[0].Node.(*ast.CallExpr).Args)-1]), an.Text(rc[0].Node.(*ast.CallExpr).Args[len(rc[0].Node.(*ast.CallExpr).Args)-1]))
 					return
 				}
-				lr := c17RbfOptionList(o, rem, v2, append(append([]an.Site{}, hs...), rc...), proposalOpts)
+				closeeHalves := append(append([]an.Site{}, hs...), rc...)
+				lr := c17RbfOptionList(o, rem, v2, closeeHalves, proposalOpts, map[string]bool{"WithOmittedRemoteCloseOutput": true})
 				opts := lr.canonOpts(rem)
 				o.Site("closee options %v (signature list %s, completion list %s)", opts, v1.Name, v2.Name)
 				// the lock time and the fee are read from the same message
@@ -360,8 +432,9 @@ func c17RbfCloseOptions(r *an.Run) {
 						an.TypeID(f.Info().TypeOf(ai)) == cc+"OfferReceivedEvent"
 				}
 				c17RbfOptionKinds(o, rem, lr, rc[0].Where(),
-					map[string]an.Term{"WithCustomSequence": seqTerm, "WithCustomPayer": payerIs("Remote"), "WithCustomLockTime": lockTerm},
-					map[string]string{"WithCustomSequence": "the RBF sequence", "WithCustomPayer": "the remote party as fee payer", "WithCustomLockTime": "the lock time of the peer's message"})
+					map[string]an.Term{"WithCustomSequence": seqTerm, "WithCustomPayer": payerIs("Remote"), "WithCustomLockTime": lockTerm, "WithOmittedRemoteCloseOutput": nil},
+					map[string]string{"WithCustomSequence": "the RBF sequence", "WithCustomPayer": "the remote party as fee payer", "WithCustomLockTime": "the lock time of the peer's message", "WithOmittedRemoteCloseOutput": "the omission of the closer's output (placed when the peer signed closee_output_only)"})
+				c17RbfCloseeOmission(o, rem, lr, closeeHalves, feeArg)
 				// the helper forwards exactly its parameters
 				a := helper.ArgCanon(hp[0])
 				o.Site("createLocalCloseeSignature -> CreateCloseProposal(%s)", strings.Join(a, ", "))
@@ -370,7 +443,7 @@ func c17RbfCloseOptions(r *an.Run) {
 				if a[0] != "$p1" || a[1] != "$p2" || a[2] != "$p3" || hid == nil || len(hps) != 5 || c17ObjOfIdent(helper, hid) != types.Object(hps[4]) || !hp[0].Node.(*ast.CallExpr).Ellipsis.IsValid() {
 					o.FailAt(helper.ID+"#forward", hp[0].Where(), "the helper calls CreateCloseProposal(%s)", strings.Join(a, ", "))
 				} else {
-					lh := c17RbfOptionList(o, helper, hid, hp, nil)
+					lh := c17RbfOptionList(o, helper, hid, hp, nil, nil)
 					if len(lh.writes) > 0 {
 						o.FailAt(helper.ID+"#forward-changed", lh.writes[0].Where(), "the helper changes the option list it was given before signing: %s", lh.writes[0].String())
 					}
@@ -417,4 +490,228 @@ func c17NoFieldWrites(o *an.Obl, f *an.Func, canons ...string) {
 		}
 		return true
 	})
+}
+
+// c17RbfAnnouncedLockTime returns the canonical form of the lock time the
+// closer announces: the LockTime field of the one lnwire.ClosingComplete
+// literal LocalCloseStart builds.  The term must be a field path of the
+// environment parameter, which LocalOfferSent receives with the same type at
+// the same position, so that the same canonical form in the completing state
+// denotes the same value.  "" (and a report) when this cannot be established.
+func c17RbfAnnouncedLockTime(o *an.Obl, start, sent *an.Func) string {
+	var lits []*ast.CompositeLit
+	ast.Inspect(start.Body, func(n ast.Node) bool {
+		if cl, ok := n.(*ast.CompositeLit); ok && an.TypeID(start.Info().TypeOf(cl)) == "lnwire.ClosingComplete" {
+			lits = append(lits, cl)
+		}
+		return true
+	})
+	if len(lits) != 1 {
+		o.FailAt(start.ID+"#closing-complete-literal", start.Where(start.Body.Pos()), "expected exactly one closing_complete message built by %s, found %d", start.ID, len(lits))
+		return ""
+	}
+	var val ast.Expr
+	for _, el := range lits[0].Elts {
+		if kv, ok := el.(*ast.KeyValueExpr); ok && an.Text(kv.Key) == "LockTime" {
+			val = kv.Value
+		}
+	}
+	if val == nil {
+		o.FailAt(start.ID+"#announced-lock-time", start.Where(lits[0].Pos()), "the closing_complete message announces no lock time (the closee builds with the announced one)")
+		return ""
+	}
+	if _, inGraph := c17SiteOfNode(start, lits[0]); !inGraph {
+		o.FailAt(start.ID+"#announced-lock-time", start.Where(lits[0].Pos()), "the closing_complete message is built inside a function literal")
+		return ""
+	}
+	canon := start.Canon(val)
+	o.Site("closing_complete announces lock time %s", canon)
+	// rooted at the environment parameter
+	root := ast.Unparen(val)
+	depth := 0
+	for {
+		sel, ok := root.(*ast.SelectorExpr)
+		if !ok {
+			break
+		}
+		if s := start.Info().Selections[sel]; s == nil || s.Kind() != types.FieldVal {
+			depth = -1
+			break
+		}
+		root = ast.Unparen(sel.X)
+		depth++
+	}
+	id, _ := root.(*ast.Ident)
+	ps, qs := start.Params(false), sent.Params(false)
+	idx := -1
+	for i, pv := range ps {
+		if pv != nil && id != nil && c17ObjOfIdent(start, id) == types.Object(pv) {
+			idx = i
+		}
+	}
+	if depth < 1 || idx < 0 || idx >= len(qs) || qs[idx] == nil || !types.Identical(ps[idx].Type(), qs[idx].Type()) || an.TypeID(ps[idx].Type()) != "lnwallet/chancloser.Environment" {
+		o.FailAt(start.ID+"#announced-lock-time-origin", start.Where(val.Pos()), "the announced lock time %s is not a field of the environment both closer states receive: the completing state cannot name the same value", an.Text(val))
+		return ""
+	}
+	return canon
+}
+
+// c17ExtraGuards returns the condition edges every path to b takes that a
+// path to base need not take.
+func c17ExtraGuards(f *an.Func, b, base an.Site) []*flow.Edge {
+	g := f.Graph()
+	var out []*flow.Edge
+	for _, v := range g.V {
+		if v.Kind != flow.KCond && v.Kind != flow.KCase && v.Kind != flow.KTypeCase {
+			continue
+		}
+		for _, e := range v.Out {
+			if e.Kind != flow.ETrue && e.Kind != flow.EFalse {
+				continue
+			}
+			reach := g.Reach(g.Entry, flow.EdgeSet{e: true}, nil)
+			if !reach[b.V] && reach[base.V] {
+				out = append(out, e)
+			}
+		}
+	}
+	return out
+}
+
+// c17RbfCloseeOmission: the closee leaves the closer's output out of the
+// transaction exactly when the signature it selected is the peer's
+// closee_output_only one.  The option is placed by one builder, under one
+// condition beyond those of the list itself; that condition is a local
+// defined once as `!<no closee output> && <the both-outputs signature is
+// absent>`, both read from the message whose fee and lock time the
+// transaction is built for; the test lies on every path to the signing and
+// the completing call and, when it holds, the option is placed before either.
+func c17RbfCloseeOmission(o *an.Obl, f *an.Func, l *c17RbfOptList, halves []an.Site, feeArg ast.Expr) {
+	const kind = "WithOmittedRemoteCloseOutput"
+	var at []an.Site
+	for i, c := range l.explicit {
+		if strings.TrimPrefix(an.CalleeID(f.Info(), c), lw) == kind {
+			at = append(at, l.explicitAt[i])
+		}
+	}
+	if len(at) != 1 {
+		return // absence and duplicates are reported by the kind table / the duplicate check
+	}
+	b := at[0]
+	if !l.isConditional(b) {
+		o.FailAt(f.ID+"#omission-unconditional", b.Where(), "%s leaves the closer's output out on every path (%s): the peer signed that version only when it sent closee_output_only without closer_and_closee_outputs", f.ID, b.String())
+		return
+	}
+	var base *an.Site
+	for i := range l.builders {
+		if !l.isConditional(l.builders[i]) {
+			base = &l.builders[i]
+			break
+		}
+	}
+	if base == nil {
+		o.FailAt(f.ID+"#omission-condition", b.Where(), "%s has no unconditional option list to compare the condition of %s with", f.ID, b.String())
+		return
+	}
+	extra := c17ExtraGuards(f, b, *base)
+	var condID *ast.Ident
+	if len(extra) == 1 && extra[0].From.Kind == flow.KCond && extra[0].Kind == flow.ETrue {
+		if e, ok := extra[0].From.Node.(ast.Expr); ok {
+			condID, _ = ast.Unparen(e).(*ast.Ident)
+		}
+	}
+	if condID == nil {
+		var txt []string
+		for _, e := range extra {
+			t := an.Text(e.From.Node)
+			if e.Kind == flow.EFalse {
+				t = "!(" + t + ")"
+			}
+			txt = append(txt, t)
+		}
+		o.FailAt(f.ID+"#omission-condition", b.Where(), "the omission of the closer's output is placed under %v, expected exactly one condition: the local that says the peer signed closee_output_only", txt)
+		return
+	}
+	o.Site("the closer's output is omitted iff %s = %s", condID.Name, f.Canon(condID))
+	c17RbfNoCloserDerivation(o, f, condID, feeArg)
+	cond := an.Site{Fn: f, V: extra[0].From, Node: extra[0].From.Node}
+	for _, h := range halves {
+		if !f.Before([]an.Site{cond}, h) {
+			o.FailAt(f.ID+"#omission-not-decided-before-"+constructOf(f, h), h.Where(), "%s can be reached without the test of %s: that half builds the transaction without the decision", h.String(), condID.Name)
+		}
+	}
+	mustDoUnlessFrom(o, f, extra[0].To, "placing the omission option", []an.Site{b}, halves)
+}
+
+// c17RbfNoCloserDerivation: id is defined once as the conjunction of
+// `!<result #2 of extractSigAndNonceFromClosingComplete(msg.SigMsg, ..)>` and
+// `parseSigFields(msg.SigMsg).CloserAndClosee.IsNone()` for the message msg
+// the fee is read from.
+func c17RbfNoCloserDerivation(o *an.Obl, f *an.Func, id *ast.Ident, feeArg ast.Expr) {
+	cc := "lnwallet/chancloser."
+	fail := func(why string) {
+		o.FailAt(f.ID+"#omission-condition-derivation", f.Where(id.Pos()), "%s: the condition %s of the omitted closer output is not `the closee keeps its output && the peer's message lacks the both-outputs signature` derived from the received message: %s", f.ID, id.Name, why)
+	}
+	d := f.UniqueDef(id)
+	if d == nil {
+		fail("it has no single definition")
+		return
+	}
+	be, ok := ast.Unparen(d).(*ast.BinaryExpr)
+	if !ok || be.Op != token.LAND {
+		fail("its definition " + an.Text(d) + " is not a conjunction of the two facts")
+		return
+	}
+	// the message: <msg>.SigMsg with msg the variable the fee is read from
+	var msgObj types.Object
+	if fsel, ok := ast.Unparen(feeArg).(*ast.SelectorExpr); ok {
+		if m, ok := ast.Unparen(fsel.X).(*ast.SelectorExpr); ok && m.Sel.Name == "SigMsg" {
+			if mi, ok := ast.Unparen(m.X).(*ast.Ident); ok {
+				msgObj = c17ObjOfIdent(f, mi)
+			}
+		}
+	}
+	isMsg := func(e ast.Expr) bool {
+		m, ok := ast.Unparen(e).(*ast.SelectorExpr)
+		if !ok || m.Sel.Name != "SigMsg" || msgObj == nil {
+			return false
+		}
+		mi, ok := ast.Unparen(m.X).(*ast.Ident)
+		return ok && c17ObjOfIdent(f, mi) == msgObj
+	}
+	keeps, lacksBoth := false, false
+	for _, c := range []ast.Expr{ast.Unparen(be.X), ast.Unparen(be.Y)} {
+		switch x := c.(type) {
+		case *ast.UnaryExpr:
+			nc, isID := ast.Unparen(x.X).(*ast.Ident)
+			if x.Op != token.NOT || !isID {
+				continue
+			}
+			call, idx := f.UniqueCallDef(nc)
+			if call == nil || idx != 2 || an.CalleeID(f.Info(), call) != cc+"extractSigAndNonceFromClosingComplete" || len(call.Args) < 1 || !isMsg(call.Args[0]) {
+				fail(an.Text(x) + " does not negate the no-closee-output result (#2) of extractSigAndNonceFromClosingComplete(<the message>.SigMsg, ..)")
+				return
+			}
+			keeps = true
+		case *ast.CallExpr:
+			sel, isSel := ast.Unparen(x.Fun).(*ast.SelectorExpr)
+			if !isSel || sel.Sel.Name != "IsNone" || len(x.Args) != 0 {
+				continue
+			}
+			field, isField := ast.Unparen(sel.X).(*ast.SelectorExpr)
+			if !isField || field.Sel.Name != "CloserAndClosee" {
+				fail(an.Text(x) + " does not test the both-outputs signature field (CloserAndClosee)")
+				return
+			}
+			pc, isCall := ast.Unparen(field.X).(*ast.CallExpr)
+			if !isCall || an.CalleeID(f.Info(), pc) != cc+"parseSigFields" || len(pc.Args) != 1 || !isMsg(pc.Args[0]) {
+				fail(an.Text(x) + " does not read the signature fields of the received message (parseSigFields(<the message>.SigMsg))")
+				return
+			}
+			lacksBoth = true
+		}
+	}
+	if !keeps || !lacksBoth {
+		fail("its definition is " + an.Text(d))
+	}
 }
